@@ -34,6 +34,7 @@ CONSTANTS Scripts,        \* set of worker scripts (sequences of [op, v])
           Sync, Live,     \* Live = TRUE: unbounded steps, no bookkeeping growth (liveness configs)
           Mode,           \* "free": any MaxOps owner calls; "loop": the owner polls until the result arrives (unit tests)
           CancelInLoop,   \* Mode = "loop": the owner calls cancel() after the first poll that showed progress
+          DropCancels,    \* FALSE = as coded; TRUE = variant of proposed_fixes/X02-drop-cancels.diff (drop sets the request)
           Emit            \* record the observer's events (scenario emission)
 
 VARIABLES script, wpc, gate, acks, prog, flag, wst, res, handle, finq, nops, goCount, cs, hist, ndeliv, lastObs, mono, polled
@@ -130,9 +131,9 @@ Cancel == /\ CanCall /\ Count
           /\ Log(<<EvCancel>>)
           /\ UNCHANGED <<script, wpc, gate, acks, prog, wst, res, handle, finq, goCount, ndeliv, lastObs, mono, polled>>
 Drop == /\ Mode = "free" /\ CanCall /\ Count
-        /\ handle' = "dropped"
+        /\ handle' = "dropped" /\ flag' = (flag \/ DropCancels)
         /\ Log(<<EvDrop>>)
-        /\ UNCHANGED <<script, wpc, gate, acks, prog, flag, wst, res, finq, goCount, ndeliv, lastObs, mono, polled>>
+        /\ UNCHANGED <<script, wpc, gate, acks, prog, wst, res, finq, goCount, ndeliv, lastObs, mono, polled>>
 Owner == Poll \/ CurProgress \/ Cancel \/ Drop
 
 Next == Worker \/ Observer \/ Owner
@@ -158,7 +159,7 @@ MonoScript == LET u == SelectSeq(script, LAMBDA st : st.op = "upd") IN
                  /\ \A i \in 1..(Len(u) - 1) : Leq(u[i].v, u[i + 1].v) /\ Table[u[i].v][2] = Table[u[i + 1].v][2]
 MonotoneObserved == MonoScript => mono /\ (lastObs # 0 => Table[lastObs][1] <= Table[lastObs][2])
 \* the flag is only ever set by cancel(): dropping does not cancel (documented limit, see DropNeverLeaks)
-FlagOnlyByCancel == flag => cs.cancelled
+FlagOnlyByCancel == flag => cs.cancelled \/ (DropCancels /\ handle = "dropped")
 
 \* liveness (FairSpec)
 NoWait == \A i \in 1..Len(script) : script[i].op # "wait"
